@@ -40,9 +40,6 @@ func runFlushMode() {
 	for i := 0; i < n; i++ {
 		root := roots[i%2]
 		o := genOpts(r)
-		if !o.zstd {
-			o.flags &^= pkg.RestartCompression // writer panics otherwise (see roundtrip mode)
-		}
 		if r.Chance(1, 2) {
 			o.frameSize = []uint{0, 50, 200}[r.Intn(3)]
 		}
